@@ -65,6 +65,8 @@ def groups(tier, seed):
         for k in range(math.factorial(n)):
             yield {'tree': 'tie%d' % n, 'cases': [{'where': False, 'order': o, 'roots': 'dot', 'mode': None, 'arc': False, 'rd': k}
                                                   for o in (1, 2)]}
+    # family 4: grouped rows are rows too
+    yield {'tree': 'lim', 'grouped': True, 'cases': [{'gorder': o, 'gkey': k} for k in ('ext', 'size', 'is_dir') for o in (None, 'key', 'key desc', 'count desc')]}
     # family 3: all small shapes
     for sh in core.tree_shapes(5 if tier == 'quick' else 7):
         yield {'tree': ['shape', sh], 'cases': [{'where': False, 'order': o, 'roots': 'dot', 'mode': m, 'arc': False, 'rd': None}
@@ -72,6 +74,8 @@ def groups(tier, seed):
 
 
 def single(case):
+    if 'gkey' in case:
+        return {'tree': 'lim', 'grouped': True, 'cases': [{'gorder': case['gorder'], 'gkey': case['gkey']}], 'only_n': case['N']}
     return {'tree': case['tree'], 'cases': [{k: case[k] for k in ('where', 'order', 'roots', 'mode', 'arc', 'rd')}],
             'only_n': case.get('N', 'all')}
 
@@ -97,6 +101,8 @@ def eval_group(env, group, tier):
     core.materialise(root, tree)
     outs = []
     try:
+        if group.get('grouped'):
+            return eval_grouped(env, root, group)
         for c in group['cases']:
             outs.extend(eval_pair(env, root, tname, c, group.get('only_n', 'all')))
     finally:
@@ -166,4 +172,49 @@ def eval_pair(env, root, tname, c, only_n):
         else:
             r.update(status='ok', sig=tuple(rows))
         res.append(r)
+    return res
+
+
+def eval_grouped(env, root, group):
+    """LIMIT applies to group rows: min(N, G) rows, with ORDER BY the first N of the sorted group rows."""
+    ents = om.entries(root, prefix='.')
+    res = []
+    for c in group['cases']:
+        key = c['gkey']
+        val = {'ext': lambda e: e['ext'], 'size': lambda e: str(e['size']), 'is_dir': lambda e: 'true' if e['isdir'] else 'false'}[key]
+        counts = {}
+        for e in ents:
+            counts[val(e)] = counts.get(val(e), 0) + 1
+        G = len(counts)
+        ob = {None: '', 'key': ' order by %s' % key, 'key desc': ' order by %s desc' % key, 'count desc': ' order by count(*) desc'}[c['gorder']]
+        for N in [None] + list(range(0, G + 3)):
+            if group.get('only_n', 'all') != 'all' and N != group['only_n']:
+                continue
+            q = '%s, count(*) from . group by %s%s%s into list' % (key, key, ob, '' if N is None else ' limit %d' % N)
+            o = env.run([q], cwd=root)
+            rows = o.rows(2)
+            want = G if N in (None, 0) else min(N, G)
+            r = {'case': {'gkey': key, 'gorder': c['gorder'], 'N': N, 'query': q}, 'nt': N is not None and 0 < N < G, 'layer': 'grouped'}
+            bad = None
+            if o.timeout or o.rc != 0 or o.err or rows is None:
+                bad = ('status', o.brief())
+            elif len(rows) != want:
+                bad = ('row-count-grouped', {'got': len(rows), 'expected': want})
+            elif any(counts.get(k) != int(v) for k, v in rows) or len({k for k, _ in rows}) != len(rows):
+                bad = ('group-rows-wrong', {'rows': rows})
+            elif c['gorder']:
+                if c['gorder'].startswith('key'):
+                    kf = (lambda k: int(k)) if key == 'size' else (lambda k: k)
+                    full = sorted((kf(k) for k in counts), reverse=c['gorder'].endswith('desc'))
+                    got = [kf(k) for k, _ in rows]
+                else:
+                    full = sorted(counts.values(), reverse=True)
+                    got = [int(v) for _, v in rows]
+                if got != full[:want]:
+                    bad = ('not-the-top-n-groups', {'got': got, 'expected': full[:want]})
+            if bad:
+                r.update(status='viol', cls=bad[0], detail=dict(bad[1], query=q), sig=('viol', bad[0]))
+            else:
+                r.update(status='ok', sig=tuple(rows))
+            res.append(r)
     return res
